@@ -36,8 +36,19 @@ def families():
     src_r = ("import dataclasses, typing\n@dataclasses.dataclass\nclass R1:\n    v: int\n    nxt: 'typing.Optional[R1]' = None\n"
              "    kids: 'list[R1]' = dataclasses.field(default_factory=list)\n")
     src_p = ("import dataclasses\n@dataclasses.dataclass\nclass Account:\n    owner: str\n    _revision: int = 0\n")
+    src_s = ("import dataclasses, typing\n@dataclasses.dataclass\nclass Account:\n    id: int\n    name: str\n"
+             "@dataclasses.dataclass\nclass AdminAccount(Account):\n    level: int = 0\n"
+             "@dataclasses.dataclass\nclass Holder:\n    owner: 'typing.Union[Account, str]'\n"
+             "@dataclasses.dataclass\nclass Comment:\n    id: int\n    replies: 'list[Comment]' = dataclasses.field(default_factory=list)\n"
+             "@dataclasses.dataclass\nclass Chain:\n    n: int\n    nxt: 'typing.Optional[Chain]' = None\n"
+             # the caller keeps one payload and repairs it in place: the nested objects keep their identity
+             "SHARED1 = {}\nINNER1 = {}\nSHARED2 = {}\nINNER2 = {}\n"
+             "def payload1(bad):\n    INNER1.clear(); INNER1.update({'id': 'oops' if bad else '2', 'replies': []})\n"
+             "    SHARED1.clear(); SHARED1.update({'id': '1', 'replies': [INNER1]})\n    return SHARED1\n"
+             "def payload2(bad):\n    INNER2.clear(); INNER2.update({'n': 'oops' if bad else '2', 'nxt': None})\n"
+             "    SHARED2.clear(); SHARED2.update({'n': '1', 'nxt': INNER2})\n    return SHARED2\n")
     mods = {}
-    for name, src in (("verif_hist_a", src_a), ("verif_hist_b", src_b), ("verif_hist_r", src_r), ("verif_hist_i", src_i),
+    for name, src in (("verif_hist_s", src_s), ("verif_hist_a", src_a), ("verif_hist_b", src_b), ("verif_hist_r", src_r), ("verif_hist_i", src_i),
                       ("verif_hist_p", src_p)):
         m = types.ModuleType(name)
         sys.modules[name] = m
@@ -45,6 +56,7 @@ def families():
         mods[name] = m
     A, B, R, I = mods["verif_hist_a"], mods["verif_hist_b"], mods["verif_hist_r"], mods["verif_hist_i"]
     PF = mods["verif_hist_p"]
+    SM = mods["verif_hist_s"]
     import pendulum
     from typelib import serdes
     U = typing.Union
@@ -126,6 +138,12 @@ def families():
                               (2, 1): ma(tuple[int, ...], lambda: (1, 2, 3)), (2, 2): ma(tuple[str, int], lambda: ("a", 1))},
         "same_origin_kinds2": {(1, 1): um(dict[str, int], lambda: {"x": "1", "y": "2"}), (1, 2): um(I.TD, lambda: {"x": "1", "y": 2}),
                                (2, 1): um(tuple[int, str], lambda: ["1", 2]), (2, 2): um(I.NT, lambda: ["1", 2])},
+        # one routine, values of different classes for one annotation: a subclass instance, a mapping, the class itself
+        "value_classes": {(1, 1): ma(SM.Account, lambda: SM.AdminAccount(1, "ann", 2)), (1, 2): ma(SM.Account, lambda: SM.Account(2, "bob")),
+                          (2, 1): ma(SM.Holder, lambda: SM.Holder({"id": 3, "name": "cy"})), (2, 2): ma(SM.Holder, lambda: SM.Holder(SM.Account(4, "di")))},
+        # the very same input object again after a failed call and an in-place repair (recursive types)
+        "retry_same_object": {(1, 1): um(SM.Comment, lambda: SM.payload1(True)), (1, 2): um(SM.Comment, lambda: SM.payload1(False)),
+                              (2, 1): um(SM.Chain, lambda: SM.payload2(True)), (2, 2): um(SM.Chain, lambda: SM.payload2(False))},
         "dateparse": {(1, 1): um(datetime.datetime, lambda: "2020-01-01"), (1, 2): um(datetime.date, lambda: "2020-01-01"),
                       (2, 1): um(datetime.timedelta, lambda: "PT1S"), (2, 2): um(datetime.timedelta, lambda: 1)},
     }
@@ -270,4 +288,4 @@ class Zygote:
 FAMILY_NAMES = ["union_unmarshal", "union_marshal", "union_in_list", "instants", "instants_in_list", "text_carriers",
                 "bare_containers", "numbers", "same_name_classes", "string_refs", "recursive", "codec_configs", "dateparse",
                 "build_order", "build_order_nt", "same_routine_inputs", "same_routine_inputs2", "private_fields", "nested_text",
-                "nested_text2", "duration_classes", "temporal_text_targets", "equal_keys", "same_origin_kinds", "same_origin_kinds2"]
+                "nested_text2", "duration_classes", "temporal_text_targets", "equal_keys", "same_origin_kinds", "same_origin_kinds2", "value_classes", "retry_same_object"]
